@@ -47,10 +47,71 @@ def pair_findings(prog, out):
             yield Finding("equiv:" + be, be, None, f"{eq}: the two sides ({a} vs {b}) differ on {be}: {p}", verb="export", extra={"ordered": ordered})
 
 
+def composed_findings(prog, out, backends=None):
+    """`t >> (v1 >> v2 >> ... >> vn)` (the verbs composed into one pipeable first) must give what `t >> v1 >> ... >> vn` gives."""
+    from pydiverse.transform._internal.pipe.pipeable import Pipeable
+
+    import pydiverse.transform as pdt
+
+    from .. import drive
+
+    meta = prog["meta"]["composed"]
+    h0, last = meta["source"], meta["last"]
+    for be, renv in out.real_env.items():
+        fa = out.frames.get((be, last))
+        if fa is None or be in out.excluded or last not in out.ref_ok.get(be, ()):
+            continue
+        rt = out.ref_env[be][last]
+        if any(v is ref.TAINT for c in rt.cols.values() for v in c.data):
+            continue
+        rr = drive.RealRun(prog, None, share=False)
+        rr.env[h0] = Pipeable(calls=[])
+        try:
+            for st in prog["steps"]:
+                if st["in"] in rr.env:
+                    rr.env[st["out"]] = rr.apply(st)
+            composed = rr.env[last]
+            assert isinstance(composed, Pipeable)
+            fb = renv[h0] >> composed >> pdt.export(pdt.Polars())
+        except Exception as e:  # noqa: BLE001
+            yield Finding("equiv:" + be, be, last, f"precomposed_chain: applying the composed pipeable raised {type(e).__name__}: {str(e)[:200]}", verb="export", exc=type(e).__name__)
+            continue
+        mode = "pol" if be == "pol" else "sql"
+        ordered = rt.seq_ok(mode)
+        p = compare.frames_equal(fa, fb, ordered)
+        yield ("judged", ordered)
+        if p:
+            yield Finding("equiv:" + be, be, None, f"precomposed_chain: t >> (v1 >> ... >> vn) differs from t >> v1 >> ... >> vn on {be}: {p}", verb="export", extra={"ordered": ordered})
+
+
 def execute(run, prop, shard):
     n = 1000 if run.tier == "quick" else 3500
     si = shard[0] if shard else 0
     cache = {}
+    # (k) the verbs of a chain composed into one pipeable before the table is piped in
+    for i in range(n // 8):
+        s = pipeline.case_seed(run.seed + 29, run.tier, si, i)
+        try:
+            prog = gen.gen_composed(s)
+        except Exception:  # noqa: BLE001
+            run.counters["generator_failures"] += 1
+            continue
+        out = runner.run_program(prog, opts={"reexport_every": 0}, be_cache=cache)
+        run.case(prog)
+        run.counters["pairs:precomposed_chain"] += 1
+        for x in composed_findings(prog, out):
+            if isinstance(x, tuple):
+                run.counters["pairs_judged:" + ("sequence" if x[1] else "multiset")] += 1
+                run.counters["precomposed_chains_judged"] += 1
+                continue
+
+            def still_c(q, f0=x):
+                if "composed" not in q.get("meta", {}) or q["meta"]["composed"]["last"] not in {st["out"] for st in q["steps"]}:
+                    return False
+                oo = runner.run_program(q, opts={"reexport_every": 0})
+                return any(not isinstance(g, tuple) and g.kind == f0.kind and g.exc == f0.exc and g.backend == f0.backend for g in composed_findings(q, oo))
+
+            run.finding(x, prog, owned=True, reshrink=still_c)
     for i in range(n):
         s = pipeline.case_seed(run.seed + 23, run.tier, si, i)
         which = gen.EQUIVS[i % len(gen.EQUIVS)]
@@ -101,7 +162,7 @@ def finalize(run, prop):
     return run.finish(
         "10 documented equivalences (mutate split, filter split, group_by/arrange verbs vs partition_by=/arrange= kwargs, drop vs select of the "
         "complement, rename and inverse, slice chain vs combined slice, inner join vs cross join + filter, map vs when/then chain, is_in vs ==|==, "
-        "union with swapped operands), each instantiated from a random prefix pipeline / expression / input; both sides run on Polars and SQLite "
+        "union with swapped operands; plus: a chain of verbs composed into one pipeable before the table is piped in), each instantiated from a random prefix pipeline / expression / input; both sides run on Polars and SQLite "
         "and their exports are compared with each other (and each with REF)",
         pipeline.ASSUME_COMMON,
     )
@@ -117,6 +178,8 @@ def replay(prop, path):
     print(render.program(prog))
     out = runner.run_program(prog, opts={"reexport_every": 0})
     fs = list(out.findings) + ([y for y in pair_findings(prog, out) if not isinstance(y, tuple)] if "pair" in prog.get("meta", {}) else [])
+    if "composed" in prog.get("meta", {}):
+        fs += [y for y in composed_findings(prog, out) if not isinstance(y, tuple)]
     bad = [f for f in fs if f.kind.startswith(("equiv:", "value:", "exc:"))]
     for f in fs:
         print(f.brief())
